@@ -89,7 +89,11 @@ func setPropsFromMapRecursive(val reflect.Value, updates map[string]any) (staged
 			break
 		}
 		if !found {
+			// The dry run decodes the document with encoding/json, which matches keys more loosely than this
+			// walk does (letter case, and Unicode folding such as "ſ" for "s"): a key that is not exactly a
+			// known one could be verified as one property there and staged as none here. It is refused instead.
 			slog.Warn("Config property not found", "key", key)
+			return stagedProps, fmt.Errorf("unknown config property %q", key)
 		}
 	}
 
